@@ -1,0 +1,9 @@
+//go:build verif
+
+// Contracts for the verification machinery in /verif (govc). Comment-only file.
+
+package jsonrpc2
+
+//@ interface jsonrpc2.Service.Call(ctx, result, method, params) (err)
+//@ ensures [effect] effects == old(effects) + 1
+//@ modifies effects
